@@ -144,6 +144,24 @@ CHECKS = {
              "An existing entry 'auto'/'0' with no port requested through TorConfig.create_socks_endpoint is outside the quantifier (the port Tor chose cannot be read off the line).",
         technique="Lean 4: decision theorems on the port-selection functions + induction over the fallback list (generated constant); differential correspondence (exhaustive product)",
         ref='§4 C18'),
+    'C10': dict(
+        text=("C10_silent_until_save (only save emits a SETCONF), C10_save_one_setconf (none when nothing is pending, else exactly one), "
+              "C10_args_exact / C10_scalar_once / C10_list_in_order / C10_unchanged_not_named (the arguments naming an option are exactly those of "
+              "its pending value: a scalar once, a list once per element in order; nothing else is named), C10_pending_exact (for EVERY sequence of "
+              "assignments, in-place list operations, saves, acknowledgements/rejections of outstanding SETCONFs and change events, the pending set "
+              "of TorConfig equals — names and order — that of an abstract machine that only counts changes: pending from the first change until "
+              "a SETCONF sent after the last change is acknowledged; by a refinement invariant that makes the `is` test of _save_completed redundant), "
+              "C10_save_ack_clean, C10_reject_keeps, C10_reads_after_save, C10_change_in_flight_kept, C10_untouched_never_named and "
+              "C10_every_setconf over whole runs. Correspondence: real TorConfig over the real protocol against the fake Tor's store; wire "
+              "SETCONFs parsed by the kvline oracle, needs_save(), every attribute read and Tor's store after every operation; an independent "
+              "Python statement of the property (change counters + Tor's store at quiescent points) is the third trace."),
+        note=NOTE_COMMON + "Values are wire texts: per-type validate/parse is applied by the harness, not modelled. In-place edits of a list while an assignment "
+             "to the same option is pending are outside H (impl-vs-model only). Re-assigning the value that is in flight, or editing a list back to what the "
+             "newest outstanding SETCONF carries, is a don't-care the generator avoids. Known finding: an emptied list sends nothing instead of a clear request "
+             "(argsOf_emptied). The theorems speak of pending names and argument shape; that an edit of one list leaves the content sent for other options "
+             "alone (heap separation) is covered by the correspondence run, not a theorem.",
+        technique="Lean 4: refinement of the pending-set bookkeeping to a change-counting machine for all operation sequences + shape theorems on save; differential correspondence with a three-way oracle",
+        ref='§4 C10'),
     'C20': dict(
         text=("C20_refines: for EVERY history of ADDRMAP lines (all token forms: local-time field, EXPIRES=, NEVER, <error>, extra flags) and clock "
               "advances, with any expiry offset past or future, the model's map equals the spec's (Tor's latest mapping per name under the clock: "
